@@ -21,7 +21,7 @@ pub const PRELUDE: &str = "put mysterious into vm\nput null into vn\nput true in
 pub const INPUTS: &[&[u8]] = &[b"line one\nline two\n", b"\n\nx\n", b"", b"no newline", b"\r\n\r\n", "é😀\n12\n".as_bytes(), b"\n"];
 pub const NO_REFERENT: &str = "if vb\nsay 0\n\n";
 
-pub const FILLERS: &[&str] = &["vm", "vn", "vb", "vz", "vf", "vg", "vh", "vx", "se", "sa", "sn", "ae", "ar", "ad", "fun", "nev", "it", "5", "\"lit\"", "mysterious", "fun taking ar", "roll ar", "ar at 0", "ar at 1e30", "ad at vh", "Qux Zed", "Gun", "gun", "vs", "sl", "dv", "mx", "nn", "ll"];
+pub const FILLERS: &[&str] = &["vm", "vn", "vb", "vz", "vf", "vg", "vh", "vx", "se", "sa", "sn", "ae", "ar", "ad", "fun", "nev", "it", "5", "16", "\"lit\"", "mysterious", "fun taking ar", "roll ar", "ar at 0", "ar at 1e30", "ad at vh", "Qux Zed", "Gun", "gun", "vs", "sl", "dv", "mx", "nn", "ll"];
 
 pub const TEMPLATES: &[&str] = &[
     "put A into B\n",
